@@ -288,6 +288,44 @@ func runRegLockstep(c *Ctx, rule string) {
 	}
 	c.role("table breaker", fnKey(ra.breaker))
 	c.role("queue poppers", fnNames(fnSetToList(ra.poppers)))
+	// ---- required-not-accumulated: a table's outstanding requirement is set from the current
+	// shortfall (or reduced by what was handed out); it is never increased by adding to itself, or
+	// seats already promised are promised again and the table is filled beyond the level
+	{
+		ix := p.Index()
+		var bad []string
+		n := 0
+		for _, w := range ix.AnyWriters("regulator.Table.Required") {
+			s := regSumm(p, 0)
+			fp, _ := s.Function(w)
+			sets := [][]*PathSum{fp}
+			for _, l := range s.loops(w) {
+				bp, _ := s.LoopBody(w, l)
+				sets = append(sets, bp)
+			}
+			for _, set := range sets {
+				for _, ps := range set {
+					for _, e := range ps.storesTo("regulator.Table.Required") {
+						n++
+						a := e.Val.asAff()
+						self := e.Loc
+						if a.T[self] <= 0 {
+							continue
+						}
+						for t, co := range a.T {
+							if t != self && co > 0 {
+								bad = append(bad, fnKey(w)+": "+e.Loc+" := "+e.Val.String()+" adds to the requirement already outstanding ("+e.Pos+")")
+							}
+						}
+						if a.C > 0 {
+							bad = append(bad, fnKey(w)+": "+e.Loc+" := "+e.Val.String()+" ("+e.Pos+")")
+						}
+					}
+				}
+			}
+		}
+		c.check(len(bad) == 0 && n > 0, "counter-lockstep", "Table.Required#not-accumulated", "-", "a requirement is set from the shortfall or reduced by a hand-out, never added to", "a table's requirement can grow beyond its shortfall", uniq(bad, 2)...)
+	}
 	// ---- total-owner: the player total changes with registrations (+len) and eliminations (-out)
 	// only; the rules below pin those two. Anything else that stores it (a "resync" from the table
 	// sheets, say) forgets the players who are on their way between a table and the queue
@@ -646,6 +684,44 @@ func runRegLockstep(c *Ctx, rule string) {
 func runRegQueue(c *Ctx) {
 	p := c.P
 	ix := p.Index()
+	// the undispatched remainder is stored back before anything else pops the queue: on a path of the
+	// drainer that dispatches and then opens tables, the queue is written between the two (otherwise
+	// the table opener pops players that were seated a moment ago)
+	if ra := resolveRegAnchors(p); ra.drainer != nil && ra.opener != nil && ra.dispatcher != nil {
+		s := regSumm(p, 0)
+		paths, _ := s.Function(ra.drainer)
+		var bad []string
+		n := 0
+		for _, ps := range paths {
+			lastDispatch, firstOpen := -1, -1
+			for i, e := range ps.Events {
+				isDisp := e.Kind == "loop"
+				if e.Kind == "call" && e.Fn != nil && e.Fn != ra.opener && (e.Fn == ra.dispatcher || (ix.Info[e.Fn] != nil && ix.Info[e.Fn].TCalls[ra.dispatcher])) {
+					isDisp = true
+				}
+				if isDisp {
+					lastDispatch = i
+				}
+				if e.Kind == "call" && e.Fn == ra.opener && lastDispatch >= 0 && firstOpen < 0 {
+					firstOpen = i
+				}
+			}
+			if lastDispatch < 0 || firstOpen < 0 {
+				continue
+			}
+			n++
+			stored := false
+			for _, e := range ps.Events[lastDispatch+1 : firstOpen] {
+				if e.Kind == "store" && e.FKey == "regulator.regulator.waitingQueue" {
+					stored = true
+				}
+			}
+			if !stored {
+				bad = append(bad, "tables are opened after dispatching without the remainder having been stored back into the queue: ["+ps.CondString()+"]")
+			}
+		}
+		c.check(len(bad) == 0 && n > 0, "queue-discipline", fnKey(ra.drainer)+"#remainder-before-open", p.FnPos(ra.drainer), "the remainder is stored back before tables are opened", "players just seated can be popped again for a new table", uniq(bad, 2)...)
+	}
 	ws := ix.Writers("regulator.regulator.waitingQueue")
 	kinds := map[string]bool{}
 	defer func() {
